@@ -1,3 +1,7 @@
 """Tie-G: regenerate lean/LouModel/Gen/*.lean from /repo's current sources."""
+
+
 def generate():
-    pass
+    """Idempotent: every generator rewrites its file only when the content changes."""
+    from . import extract_meta
+    extract_meta.generate()
